@@ -331,6 +331,7 @@ func (k *Case) runValidate() (out string) {
 	az := &acme.Authorization{ID: "azID", AccountID: "accID", Status: acme.StatusPending, ExpiresAt: time.Now().Add(time.Hour),
 		Challenges: []*acme.Challenge{{ID: "chID", Type: ch.Type, Status: db.status}}}
 	azOut := "err"
+	db.MockUpdateAuthorization = func(context.Context, *acme.Authorization) error { return nil } // the fault (if any) was for the validator
 	if az.UpdateStatus(ctx, db) == nil {
 		azOut = statusName(az.Status)
 	}
@@ -341,7 +342,7 @@ func (k *Case) runValidate() (out string) {
 	if !k.cmpTarget() {
 		tgt = "?"
 	}
-	return fmt.Sprintf("st=%s err=%s ret=%s fp=%s az=%s tgt=%s", statusName(db.status), db.errType, ret, c.B(db.fpStored), azOut, tgt)
+	return fmt.Sprintf("%s err=%s ret=%s fp=%s az=%s tgt=%s", statusName(db.status), db.errType, ret, c.B(db.fpStored), azOut, tgt)
 }
 
 func idType(t string) acme.IdentifierType {
@@ -392,7 +393,7 @@ func (k *Case) runTypes() (out string) {
 		// newAuthorization needs Wire provisioner options for these; only challengeTypes is exercised
 		az.Wildcard = strings.HasPrefix(k.Raw, "*.")
 		v := strings.TrimPrefix(k.Raw, "*.")
-		return fmt.Sprintf("val=%s wild=%s types=%s", c.X(v), c.B(az.Wildcard), typeNames(acmeapi.VerifChallengeTypes(az)))
+		return fmt.Sprintf("offered=%s val=%s wild=%s", typeNames(acmeapi.VerifChallengeTypes(az)), c.X(v), c.B(az.Wildcard))
 	}
 	if err := acmeapi.VerifNewAuthorization(ctx, az); err != nil {
 		return "error"
@@ -405,7 +406,7 @@ func (k *Case) runTypes() (out string) {
 	if got := typeNames(acmeapi.VerifChallengeTypes(az)); got != typeNames(created) {
 		return "created-differs:" + got + "/" + typeNames(created)
 	}
-	return fmt.Sprintf("val=%s wild=%s types=%s", c.X(az.Identifier.Value), c.B(az.Wildcard), typeNames(created))
+	return fmt.Sprintf("offered=%s val=%s wild=%s", typeNames(created), c.X(az.Identifier.Value), c.B(az.Wildcard))
 }
 
 func (k *Case) runRev() (out string) {
@@ -414,7 +415,7 @@ func (k *Case) runRev() (out string) {
 			out = "crash"
 		}
 	}()
-	return c.X(acme.VerifReverseAddr(net.IP(k.IP)))
+	return "arpa=" + c.X(acme.VerifReverseAddr(net.IP(k.IP)))
 }
 
 func (k *Case) run() string {
@@ -568,7 +569,8 @@ func main() {
 	for _, k := range corner() {
 		emit(k)
 	}
-	r := c.NewRng(c.Seed())
+	// common.NewRng(seed+1) is NewRng(seed) advanced by one draw: decorrelate the seeds here
+	r := c.NewRng(c.Seed()*0x2545F4914F6CDD1D ^ 0x5851F42D4C957F2D)
 	for i := 0; i < *n; i++ {
 		emit(genCase(r.Fork()))
 	}
